@@ -19,6 +19,29 @@ mod test_framework;
 #[cfg(test)]
 mod tests;
 
+/// Verification hook (off unless built with `--cfg aiken_verif`): lets a harness look at the tests
+/// exactly as they are about to be handed to the parallel runner.
+#[cfg(aiken_verif)]
+pub mod verif_hook {
+    use aiken_lang::test_framework::Test;
+    use std::sync::Mutex;
+
+    pub type Audit = fn(&[Test]);
+
+    static AUDIT: Mutex<Option<Audit>> = Mutex::new(None);
+
+    pub fn set(audit: Option<Audit>) {
+        *AUDIT.lock().unwrap() = audit;
+    }
+
+    pub(crate) fn audit(tests: &[Test]) {
+        let audit = *AUDIT.lock().unwrap();
+        if let Some(audit) = audit {
+            audit(tests)
+        }
+    }
+}
+
 use crate::{
     blueprint::{
         Blueprint,
@@ -1169,6 +1192,9 @@ where
                 _ => None,
             })
             .collect::<Vec<_>>();
+
+        #[cfg(aiken_verif)]
+        verif_hook::audit(&tests);
 
         let mut results = tests
             .into_par_iter()
